@@ -276,6 +276,10 @@ func (c *Chunk) addLocked(chunk pb.Chunk) bool {
 	if c.shouldValidate(chunk) {
 		if !td.validator.AddChunk(chunk.Data, chunk.ChunkId) {
 			plog.Warningf("ignored a invalid chunk %s", key)
+			// record() has already moved on to the next chunk id, the stream has
+			// lost this chunk and must not be allowed to complete
+			c.removeTempDir(chunk)
+			c.reset(key)
 			return false
 		}
 	}
